@@ -163,7 +163,7 @@ CHECKS = {
          "the dataflow reference.",
          "Trusted: Lean kernel + standard axioms; Model/Rtl.lean (bit-vector signals, assignment-list blocks, nets as blocks, if/else presented as mux by the "
          "harness generator); driver table glue; generator language = Bits signals, constant slices, one level of children, nets. SimpleSchedulePass (Kahn), Mamba2020Pass and "
-         "HeuristicTopoPass are modelled as algorithms; Kosaraju SCC and DynamicSchedulePass outputs are checked and executed (SCC model in progress).",
+         "HeuristicTopoPass are modelled as algorithms; Kosaraju SCC + the SCC-level sort of DynamicSchedulePass are modelled in Props/C11s; UnrollSim reuses SimpleSchedulePass.",
          "Lean 4 proof (abstract scheduling theory + verified schedule checker) + differential correspondence check", "DESIGN.md §5 C01"),
  'C02': ("Lean 4 theorems: the overlap test is exact at bit level (overlap_spec, rngsOverlap_spec), the schedule checker accepts exactly the orders in which "
          "every writer of a bit precedes every reader of it (topo_iff_writer_before_reader), and Kahn's algorithm with an arbitrary tie-break is duplicate-free, "
@@ -196,8 +196,15 @@ CHECKS = {
          "intra-group variables (stable_is_fixed_point, with watchOKB_sound and the checked hypothesis watchOKB), the loop is total and `none` means no sweep was "
          "stable (none_means_unstable), a stable state is accepted (fixed_point_accepted), and a false loop evaluates to the value of its acyclic refinement "
          "(false_loop_eq_acyclic). Tie to the code: cyclic designs under Dynamic and Mamba with the real inner order and real watch list parsed from the generated "
-         "wrapper and fed to the model; fixed-point re-run, acyclic reference, UpblkCyclicError and sweep-count oracles on the real simulator.",
-         "Trusted: as C01; Kosaraju partition not modelled (its result is executed and checked); watch list read from generated source by rtlgen.parse_scc.",
+         "wrapper and fed to the model; fixed-point re-run, acyclic reference, UpblkCyclicError and sweep-count oracles on the real simulator. The partition step is inside the model: "
+         "Model/Scc.lean follows kosaraju_scc (iterative DFS with (u, second_visit) entries, BFS on the transpose in reverse post-order, G_new) and the SCC-level sort with the pop "
+         "discipline as a parameter; Props/C11s.lean proves for every finite graph and every iteration order that the groups are exactly the strongly connected components "
+         "(groups_partition, groups_strongly_connected, same_group_iff_mutual), that G_new is the acyclic condensation, that scc_schedule holds every group once with every edge forward "
+         "(so the code's assert cannot fail) and that the expanded schedule satisfies the entries-topological hypothesis of whole_schedule (entries_topological); fuel never decides "
+         "(fuel_sufficient). Tied to the code by exact comparison with the real kosaraju_scc on 1500 random graphs per quick run and on the calls recorded inside "
+         "DynamicSchedulePass / Mamba2020Pass / OpenLoopCLPass on generated designs, plus an independent Tarjan oracle.",
+         "Trusted: as C01; watch list read from generated source by rtlgen.parse_scc; Mamba2020 / OpenLoopCLPass pop orders enter the SCC theorems as the `pick` parameter and "
+         "their real schedules are checked through the proved-sound checkers.",
          "Lean 4 proof + differential correspondence check", "DESIGN.md §5 C11"),
  'C04': ("Lean 4 theorems (Props/C04.lean) prove, for every width n and all operands, that each operator of the Bits model returns the "
          "unsigned result mod 2^n (comparisons 1 bit), that width mismatches and ints that do not fit are errors, that construction/@=/<<= "
